@@ -280,10 +280,10 @@ func VH_C04_torn_tail() {
 // (offset 65535) at every position inside a second command whose id and value bytes are symbolic (binary
 // safe, NUL included); a torn third command follows. The carry-over between reads must neither lose nor
 // invent a byte.
-//verif:cfg use=recorder,filemodel b_log_size=one_read_boundary_(65535) b_boundary=every_offset_inside_the_second_command b_arg_bytes=1+3_symbolic ignorego=1 maxsteps=60000000
+//verif:cfg use=recorder,filemodel b_log_size=one_read_boundary_(65535) b_boundary=every_offset_inside_the_second_command b_arg_bytes=1+3_symbolic b_tail=0..3_NUL_then_optionally_a_torn_command b_then=one_more_write_and_a_second_restart ignorego=1 maxsteps=60000000
 func VH_C04_chunk_boundary() {
 	id, v := vnondetStringN(1), vnondetStringN(3)
-	vassume(id != "z")
+	vassume(id != "z" && id != "y")
 	enc2 := vhEncode("SET", "k", id, "STRING", v)
 	j := vchoose(len(enc2) + 1) // how many bytes of the second command lie before the boundary
 	// first command: SET k z STRING <filler>, sized so that it ends at 65535-j
@@ -298,12 +298,20 @@ func VH_C04_chunk_boundary() {
 	var log []byte
 	log = append(log, enc1...)
 	log = append(log, enc2...)
+	// the tail: 0..3 NULs of padding, then (optionally) a torn third command
+	z := vchoose(4)
+	for i := 0; i < z; i++ {
+		log = append(log, 0)
+	}
 	e2 := len(log)
-	log = append(log, "*3\r\n$3\r\nDEL\r\n$1\r\nk"...) // torn tail
+	torn := vnondetBool()
+	if torn {
+		log = append(log, "*3\r\n$3\r\nDEL\r\n$1\r\nk"...)
+	}
 	s := vhNewServer()
 	vhOpenAOF(s, log)
 	err := s.loadAOF()
-	vobs("boundary", j, id, v)
+	vobs("boundary", j, id, v, z, torn)
 	vassert("C04.no_error", err == nil)
 	got, ok := vhStringValue(s, "k", id)
 	vassert("C04.straddling_command_recovered_exactly", ok && got == v)
@@ -311,5 +319,25 @@ func VH_C04_chunk_boundary() {
 	vassert("C04.large_value_recovered", okb && len(big) == fill)
 	vassert("C04.aofsz", s.aofsz == e2)
 	vassert("C04.file_cut_to_boundary", vhFileSize(s) == e2)
+	vassert("C04.position_at_end", vhFilePos(s) == e2)
+	// the server keeps appending; the later write survives the next restart together with everything before it
+	s.writeAOF([]string{"SET", "k", "y", "STRING", "later"}, nil)
+	s.flushAOF(false)
+	after := vhFileBytes(s)
 	vhCloseAOF(s)
+	keep := true
+	for i := 0; i < e2-z; i++ {
+		if after[i] != log[i] {
+			keep = false
+		}
+	}
+	vassert("C04.complete_commands_stay_in_the_file", len(after) >= e2 && keep)
+	s2 := vhNewServer()
+	vhOpenAOF(s2, after)
+	err = s2.loadAOF()
+	vassert("C04.restart_no_error", err == nil)
+	r, rok := vhStringValue(s2, "k", id)
+	ry, roky := vhStringValue(s2, "k", "y")
+	vassert("C04.restart_recovers_all", rok && r == v && roky && ry == "later")
+	vhCloseAOF(s2)
 }
